@@ -56,6 +56,8 @@ def client_strategy():
             "rng": st.integers(0, 2**32 - 1),
             "masks": st.lists(st.binary(min_size=4, max_size=4), min_size=8, max_size=8),
             "pad_b64url": st.booleans(),
+            # the initial request already holds (stale) values under the very names the program writes to
+            "collide": st.booleans(),
         }
     )
 
@@ -71,6 +73,12 @@ def client_execute(case, stats):
     fields = case["fields"]
     kinds = [a for n, a in steps if n == "BUILD"]
     ini = case["initial"]
+    survivors = ini
+    if ini and case.get("collide"):
+        hk = [a for n, a in steps if n == "HEADER"] + [a.partition(b": ")[0] for n, a in steps if n in ("_HEADER", "_HOSTHEADER")]
+        pk = [a for n, a in steps if n == "PARAMETER"] + [a.partition(b"=")[0] for n, a in steps if n == "_PARAMETER"]
+        ini = {"uri": ini["uri"], "params": {**{k: b"stale-" + k for k in pk}, **ini["params"]}, "headers": {**{k: b"stale-" + k for k in hk}, **ini["headers"]}}
+        survivors = {"uri": ini["uri"], "params": {k: v for k, v in ini["params"].items() if k not in pk}, "headers": {k: v for k, v in ini["headers"].items() if k not in hk}}
     base_uri = ini["uri"] if ini else b""
     uri_append = any(n == "URI_APPEND" for n, _ in steps)
     has_mask = any(n == "MASK" for n, _ in steps)
@@ -112,9 +120,9 @@ def client_execute(case, stats):
             raise Violation(key, f"library message differs from reference: lib={msg!r} ref={ref_msg!r}; steps={steps!r}"[:1500])
     # initial fields survive
     if ini:
-        for k, v in ini["headers"].items():
+        for k, v in survivors["headers"].items():
             check(msg["headers"].get(k) == v, "transform:initial_header_lost", ctx)
-        for k, v in ini["params"].items():
+        for k, v in survivors["params"].items():
             check(msg["params"].get(k) == v, "transform:initial_param_lost", ctx)
         check(msg["uri"].startswith(base_uri), "transform:initial_uri_lost", ctx)
 
@@ -173,6 +181,7 @@ def client_execute(case, stats):
             "mask" if has_mask else "no_mask",
             "uri_append" if uri_append else "no_uri_append",
             "base_uri" if base_uri else "no_base_uri",
+            "initial_collides" if ini is not survivors else "initial_disjoint",
             "static" if any(n in T.STATICS for n, _ in steps) else "no_static",
             "empty_arg" if any(a == b"" for _, a in steps) else "no_empty_arg",
         ],
@@ -267,7 +276,7 @@ def large_enumerate(tier, shard, nshards):
     from ..runner import shard_iter
 
     def gen():
-        for size in (65535, 65536, 65537, 200003):
+        for size in (65535, 65536, 65537, 200003, 1048576):
             for prog in range(4):
                 yield {"size": size, "prog": prog}
 
